@@ -559,6 +559,67 @@ def rule_ovf(c, prog, g, dreach):
     c.floor(R, n, 5, "overflow-checked operations in decoder-reachable code")
 
 
+def bounded_by_guard(fn, size, alloc, env):
+    """the size was compared with the amount of data actually held, and the function left when it was larger, before
+    the allocation: `if count as usize > chunk.len() / 8 { return Err(..) }`"""
+    def locals_of(e, depth=4):
+        out = set()
+        for y in core.walk(e):
+            if y.get("k") == "Path" and y.get("res") == "local":
+                out.add(y["lid"])
+                if depth and y["lid"] in env:
+                    out |= locals_of(env[y["lid"]], depth - 1)
+        return out
+    sized = locals_of(size)
+    direct = locals_of(size, 0)
+    if not sized or not direct:
+        return False
+
+    def leaves(b):
+        b = core.strip(b)
+        if b.get("k") in ("Ret",) or b.get("ty") == "!":
+            return True
+        if b.get("k") == "Block":
+            for st in b["b"]["stmts"]:
+                e = core.strip(st.get("e") or {})
+                if e.get("k") == "Ret" or e.get("ty") == "!":
+                    return True
+            if "expr" in b["b"]:
+                return leaves(b["b"]["expr"])
+        return False
+    for n in core.walk_fn(fn, into_closures=False):
+        if n.get("k") != "If" or sp_key(n) >= sp_key(alloc):
+            continue
+        cnd = core.strip(n["c"])
+        if cnd.get("k") != "Binary" or cnd.get("op") not in (">", ">=", "<", "<="):
+            continue
+        l_, r_ = cnd["l"], cnd["r"]
+        def mentions_size(e):
+            # locals of the size, other than as the receiver of a len() (`chunk.len()` is the data held, even though the
+            # size was read from `chunk`)
+            stack = [e]
+            while stack:
+                y = stack.pop()
+                if y.get("k") == "MethodCall" and y["m"] in ("len", "remaining") and not y["args"]:
+                    continue
+                if y.get("k") == "Path" and y.get("res") == "local" and (y["lid"] in direct or (y["lid"] in env and locals_of(env[y["lid"]], 0) & direct)):
+                    return True
+                stack.extend(core.children(y))
+            return False
+        lt, rt = mentions_size(l_), mentions_size(r_)
+        if lt == rt:
+            continue
+        other = r_ if lt else l_
+        if not any(y.get("k") == "MethodCall" and y["m"] in ("len", "remaining") and not y["args"] for y in core.walk(other)):
+            continue
+        tainted_larger_in_then = (cnd["op"] in (">", ">=")) == lt
+        if tainted_larger_in_then and leaves(n["t"]):
+            return True
+        if not tainted_larger_in_then and n.get("f") is not None and leaves(n["f"]):
+            return True
+    return False
+
+
 def rule_alloc(c, prog, g, dreach):
     R = "C13.alloc"
     ordinal = {}
@@ -587,6 +648,8 @@ def rule_alloc(c, prog, g, dreach):
             t = taint_of(fn, size, env)
             name = core.short(gen)
             inst = f"{fn.path}|{name}|{core.fingerprint(size, 4)}"
+            if t != "clean" and bounded_by_guard(fn, size, x, env):
+                t = "clean"
             if t == "clean":
                 c.ok(R, inst)
             else:
